@@ -42,8 +42,7 @@ fn corpus() -> Vec<std::path::PathBuf> {
 }
 // the grammar normalises whitespace and the trailing comma of a tuple `(T,)`: a consistent renaming
 fn squash(s: &str) -> String { s.chars().filter(|c| !c.is_whitespace()).collect::<String>().replace(",)", ")") }
-fn check(path: &std::path::Path) -> Option<String> {
-    let text = std::fs::read_to_string(path).ok()?;
+fn check(text: &str) -> Option<String> {
     let p = match ProgramParser::new().parse(&text) { Ok(p) => p, Err(e) => return Some(format!("printed program does not parse back: {}", format!("{e:?}").chars().take(80).collect::<String>())) };
     let printed = p.to_string();
     let p2 = match ProgramParser::new().parse(&printed) { Ok(p) => p, Err(_) => return Some("print(parse(text)) does not parse".into()) };
@@ -57,7 +56,7 @@ fn check(path: &std::path::Path) -> Option<String> {
     let lf_ids: HashSet<u64> = p.libfunc_declarations.iter().map(|t| t.id.id).collect();
     if lf_ids.len() != p.libfunc_declarations.len() { return Some("libfunc ids collided".into()); }
     // every parsed function name is the name written in the text (up to whitespace)
-    let sq = squash(&text);
+    let sq = squash(text);
     for f in &p.funcs {
         if let Some(n) = &f.id.debug_name {
             if !sq.contains(&format!("{}@", squash(n))) { return Some(format!("function name changed by parsing: `{}` is not declared in the text", n.chars().take(80).collect::<String>())); }
@@ -69,19 +68,84 @@ fn check(path: &std::path::Path) -> Option<String> {
 #[test]
 fn __verif_n_c18_text_round_trip() {
     std::panic::set_hook(Box::new(|_| {}));
-    let files = corpus();
+    let files = inputs();
     let mut fails = vec![];
-    for f in &files {
-        let r = catch_unwind(AssertUnwindSafe(|| check(f)));
+    for (name, text) in &files {
+        let r = catch_unwind(AssertUnwindSafe(|| check(text)));
         let why = match r { Err(_) => Some("panic".to_string()), Ok(w) => w };
-        if let Some(w) = why { fails.push((f.display().to_string(), w)); }
+        if let Some(w) = why { fails.push((name.clone(), w)); }
     }
-    let bound = format!("{} printed Sierra programs of the repository (golden *.sierra files)", files.len());
+    let bound = format!("{} printed Sierra programs of the repository (golden *.sierra files and the e2e test files)", files.len());
     for (input, why) in &fails {
         let short = input.rsplit('/').next().unwrap_or(input);
         println!("VERIF-N id=N/n_c18_text/round_trip:{} status=fail key=\"{}\" input=\"{}\" detail=\"{}: {}\" bound=\"{bound}\"", short, why.replace('"', "'"), input, short, why.replace('"', "'"));
     }
     if fails.is_empty() || fails.len() < files.len() {
         println!("VERIF-N id=N/n_c18_text/round_trip status=ok cases={} distinct={} bound=\"{bound}; {} file(s) reported separately as failing\"", files.len(), files.len(), fails.len());
+    }
+}
+
+#[path = "../shared/e2e_corpus.rs"]
+mod e2e_corpus;
+/// (name, text) of the file corpus plus the programs recorded in the e2e test files.
+fn inputs() -> Vec<(String, String)> {
+    let mut v: Vec<(String, String)> = corpus().iter().filter_map(|f| std::fs::read_to_string(f).ok().map(|s| (f.display().to_string(), s))).collect();
+    v.extend(e2e_corpus::e2e_programs(env!("CARGO_MANIFEST_DIR")));
+    v
+}
+
+/// "writing it as versioned JSON and loading it again ... yield[s] the same program": for every corpus
+/// program p, with and without its debug info:
+///   load(write(VersionedProgram::v1(p))) == VersionedProgram::v1(p); the program inside is p; and
+///   with the debug info populated again it prints exactly as p does.
+#[test]
+fn __verif_n_c18_json_round_trip() {
+    use crate::debug_info::DebugInfo;
+    use crate::program::{ProgramArtifact, VersionedProgram};
+    std::panic::set_hook(Box::new(|_| {}));
+    let files = inputs();
+    let mut checked = 0u64;
+    let mut fails: Vec<(String, String)> = vec![];
+    for (name, text) in &files {
+        let r = catch_unwind(AssertUnwindSafe(|| -> Option<Option<String>> {
+            let p = ProgramParser::new().parse(text).ok()?;
+            for with_debug in [false, true] {
+                let art = if with_debug { ProgramArtifact::stripped(p.clone()).with_debug_info(DebugInfo::extract(&p)) } else { ProgramArtifact::stripped(p.clone()) };
+                let vp = VersionedProgram::v1(art);
+                for pretty in [false, true] {
+                    let Ok(js) = (if pretty { serde_json::to_string_pretty(&vp) } else { serde_json::to_string(&vp) }) else { return Some(Some("the versioned program does not print as JSON".into())) };
+                    let back: VersionedProgram = match serde_json::from_str(&js) { Ok(b) => b, Err(e) => return Some(Some(format!("the JSON of the versioned program does not load: {}", format!("{e}").chars().take(100).collect::<String>()))) };
+                    let Ok(a) = back.into_v1() else { return Some(Some("the loaded program is not version 1".into())) };
+                    if a.program != p { return Some(Some("the program inside the JSON artifact changed".into())); }
+                    // the debug info is a set of (id, name) pairs: the JSON stores it sorted by id, so it is
+                    // compared as a map, not as an ordered list
+                    if with_debug {
+                        let Some(d) = &a.debug_info else { return Some(Some("the debug info was lost by the JSON round trip".into())) };
+                        let d0 = &DebugInfo::extract(&p);
+                        let mut t1: Vec<(u64, String)> = d.type_names.iter().map(|(k, v)| (k.id, v.to_string())).collect(); t1.sort();
+                        let mut t0: Vec<(u64, String)> = d0.type_names.iter().map(|(k, v)| (k.id, v.to_string())).collect(); t0.sort();
+                        let mut l1: Vec<(u64, String)> = d.libfunc_names.iter().map(|(k, v)| (k.id, v.to_string())).collect(); l1.sort();
+                        let mut l0: Vec<(u64, String)> = d0.libfunc_names.iter().map(|(k, v)| (k.id, v.to_string())).collect(); l0.sort();
+                        let mut f1: Vec<(u64, String)> = d.user_func_names.iter().map(|(k, v)| (k.id, v.to_string())).collect(); f1.sort();
+                        let mut f0: Vec<(u64, String)> = d0.user_func_names.iter().map(|(k, v)| (k.id, v.to_string())).collect(); f0.sort();
+                        if t1 != t0 || l1 != l0 || f1 != f0 { return Some(Some("the debug names changed by the JSON round trip".into())); }
+                    }
+                    let mut q = a.program.clone();
+                    if let Some(d) = &a.debug_info { d.populate(&mut q); }
+                    if with_debug && q.to_string() != p.to_string() { return Some(Some("the program loaded from JSON with its debug info prints differently".into())); }
+                }
+            }
+            Some(None)
+        }));
+        match r { Ok(Some(None)) => checked += 1, Ok(Some(Some(w))) => fails.push((name.clone(), w)), Ok(None) => {}, Err(_) => fails.push((name.clone(), "panic".into())) }
+    }
+    let bound = format!("{} Sierra programs of the repository x {{with, without}} debug info x {{compact, pretty}} JSON; {checked} checked", files.len());
+    let mut seen = HashSet::new();
+    for (input, why) in &fails {
+        if !seen.insert(why.clone()) { continue; }
+        println!("VERIF-N id=N/n_c18_text/json_round_trip:{} status=fail key=\"{}\" input=\"{}\" detail=\"{}: {}\" bound=\"{bound}\"", seen.len(), why.replace('"', "'"), input.replace('"', "'"), input.replace('"', "'"), why.replace('"', "'"));
+    }
+    if fails.is_empty() {
+        if checked == 0 { println!("VERIF-N id=N/n_c18_text/json_round_trip status=unknown"); } else { println!("VERIF-N id=N/n_c18_text/json_round_trip status=ok cases={} distinct={checked} bound=\"{bound}\"", checked * 4); }
     }
 }
